@@ -43,3 +43,83 @@ Theorem C04_Heap_min_least :
   heap_inv lt h -> heap_min h = Some x -> Forall (le lt x) (elements (h_tree h)).
 Proof. intros elt lt Ha Ht h x. exact (heap_min_least lt Ha h x). Qed.
 Print Assumptions C04_Heap_min_least.
+
+(* ---- timers (Model/Timer.v) ---- *)
+From UV Require Import Proofs.TimerProofs.
+Local Open Scope Z_scope.
+
+(* Never early: in the trace of every script (any operations, any callback
+   behaviour [beh], any initial clock), every timer callback event
+   EFire i cb now due sid at req satisfies due <= now and due = clamp at req,
+   where (at, req) are the loop time and timeout of the latest arm of i. *)
+Theorem C04_never_early :
+  forall (t0 : Z) (os : list op) (beh : nat -> list op),
+  Forall (fun e => match e with
+                   | EFire _ _ nw due _ at_ req => due <= nw /\ due = clamp at_ req
+                   | _ => True end)
+         (snd (run (tinit t0) os beh 0)).
+Proof. exact never_early. Qed.
+Print Assumptions C04_never_early.
+
+(* ... and the clamp saturates instead of wrapping: for 64-bit operands it is
+   the sum when that fits and UINT64_MAX otherwise, never below "now". *)
+Theorem C04_saturates :
+  forall nw t, 0 <= nw < two64 -> 0 <= t < two64 ->
+  clamp nw t = (if nw + t <? two64 then nw + t else max64) /\ nw <= clamp nw t.
+Proof. intros nw t Hn Ht. split; [exact (clamp_sat nw t Hn Ht)| exact (clamp_ge_now nw t Hn Ht)]. Qed.
+Print Assumptions C04_saturates.
+
+(* A pass fires only timers that were in the ready queue when it began to
+   fire, each at most once: a timer (re)armed during the pass waits. *)
+Theorem C04_started_in_pass_waits :
+  forall fuel s beh cnt i, TI s -> ~ In i (ready s) ->
+  ~ In i (fire_ids (snd (fst (fire fuel s beh cnt)))).
+Proof. exact fire_only_ready. Qed.
+Print Assumptions C04_started_in_pass_waits.
+
+Theorem C04_start_arms_and_unreadies :
+  forall s i cb t r, TI s -> (i < length (tms s))%nat -> snd (timer_start s i cb t r) = 0 ->
+  ~ In i (ready (fst (timer_start s i cb t r))) /\
+  t_active (get (fst (timer_start s i cb t r)) i) = true /\
+  t_timeout (get (fst (timer_start s i cb t r)) i) = clamp (now s) t.
+Proof. exact start_leaves_ready. Qed.
+Print Assumptions C04_start_arms_and_unreadies.
+
+Theorem C04_pass_fires_each_once :
+  forall s beh cnt, TI s -> ready s = [] ->
+  let '(s', evs, _) := run_timers s beh cnt in
+  TI s' /\ ready s' = [] /\ now s <= now s' /\ Forall ev_ok evs /\ NoDup (fire_ids evs).
+Proof. exact run_timers_spec. Qed.
+Print Assumptions C04_pass_fires_each_once.
+
+(* Stopping (hence closing) removes the timer from the heap and from the
+   ready queue, so by C04_started_in_pass_waits it cannot fire. *)
+Theorem C04_stop_prevents :
+  forall s i, TI s -> (i < length (tms s))%nat ->
+  ~ In i (ready (timer_stop s i)) /\ t_active (get (timer_stop s i) i) = false.
+Proof. exact stop_prevents. Qed.
+Print Assumptions C04_stop_prevents.
+
+Theorem C04_due_in :
+  forall s i, timer_due_in s i = Z.max 0 (t_timeout (get s i) - now s).
+Proof. exact due_in_spec. Qed.
+Print Assumptions C04_due_in.
+
+Theorem C04_next_timeout_bound :
+  forall s, -1 <= next_timeout s <= int_max /\
+  (forall k, heap_min (hp s) = Some k -> now s + next_timeout s <= Z.max (now s) (k_timeout k)).
+Proof. exact next_timeout_bound. Qed.
+Print Assumptions C04_next_timeout_bound.
+
+(* the invariant all of the above rest on is reachable and non-trivial *)
+Example C04_invariant_nonvacuous :
+  let s := fst (run (tinit 100) [OInit; OInit; OStart 0 (Some 1%nat) 10 5; OStart 1 (Some 2%nat) 3 0;
+                                OAdvance 4; ORun] (fun _ => [ODueIn 0]) 0) in
+  TI s /\ ready s = [] /\ length (elements (h_tree (hp s))) = 1%nat.
+Proof.
+  split; [|split].
+  - apply run_spec; [apply TI_init|reflexivity].
+  - apply run_spec; [apply TI_init|reflexivity].
+  - vm_compute. reflexivity.
+Qed.
+Print Assumptions C04_invariant_nonvacuous.
